@@ -386,6 +386,8 @@ class State:
         return Ref(loc)
 
     def content(self, ref):
+        if isinstance(ref, MaybeNone):
+            ref = ref.value
         if ref.loc in self.locs:
             return self.locs[ref.loc]
         return self.initial_locs[ref.loc]
